@@ -50,4 +50,60 @@ theorem C12_volume_wrap_guards_are_source (pod : PodS) (t : Trial) (h : podG pod
   cases hl : t.primaryPodLabels.isSome <;> cases hn : nonPrimary pod t <;> cases hp : decide (t.kind = .push) <;>
     cases hc : hasContainer pod.containers t.primaryContainer <;> simp [hl, hn, hp, hc] at h ⊢
 
+/-! ## `getMetricsCollectorArgs` -/
+
+theorem C12_args_guards_known :
+    argPathGuardUnknown = [] ∧ argFilterGuardUnknown = [] ∧ argFileFormatGuardUnknown = [] ∧ argStdoutFormatGuardUnknown = [] ∧
+    argWaitGuardUnknown = [] ∧ argStopRuleGuardUnknown = [] ∧ errNoSuggestionGuardUnknown = [] ∧ argEarlyStopGuardUnknown = [] ∧
+    argPathGuardSites = 1 ∧ argFilterGuardSites = 1 ∧ argFileFormatGuardSites = 1 ∧ argStdoutFormatGuardSites = 1 ∧
+    argWaitGuardSites = 1 ∧ argStopRuleGuardSites = 1 ∧ errNoSuggestionGuardSites = 1 ∧ argEarlyStopGuardSites = 1 := by decide
+
+/-- the generated guards on a trial's collector spec.  `src fil fmts fsp` are the nil tests the model folds into `filters`
+    (non-empty exactly when source, filter and formats are all there) and `fileFormat` (`some` exactly for a File collector
+    whose source and file-system path are set) -/
+def argsG (t : Trial) (e : Env) (src fil fmts fsp : Bool)
+    (g : Bool → Bool → Bool → Bool → Bool → Bool → Bool → Bool → Bool → Bool → Bool → Bool) : Bool :=
+  g (decide (t.mountPath ≠ "")) src fil fmts (decide (t.kind = .file)) fsp (decide (t.kind = .stdOut)) e.waitAll.isSome
+    (!(t.rules.getD []).isEmpty) e.suggestion.isNone false
+
+def collectorArgsGen (t : Trial) (e : Env) (src fil fmts fsp : Bool) : Except Err (List String) :=
+  let G := argsG t e src fil fmts fsp
+  if G errNoSuggestionGuard then .error .noSuggestion
+  else .ok (["-t", t.name, "-m", t.metricNames, "-o-type", t.objType, "-s-db", e.dbAddr] ++
+    (if G argPathGuard then ["-path", t.mountPath] else []) ++
+    (if G argFilterGuard then ["-f", ";".intercalate t.filters] else []) ++
+    (if G argFileFormatGuard then ["-format", t.fileFormat.getD ""] else []) ++
+    (if G argStdoutFormatGuard then ["-format", "TEXT"] else []) ++
+    (if G argWaitGuard then ["-w", if e.waitAll.getD false then "true" else "false"] else []) ++
+    (if G argStopRuleGuard then (t.rules.getD []).flatMap (fun r => ["-stop-rule", r]) else []) ++
+    (if G argEarlyStopGuard then ["-s-earlystop", (e.suggestion.map (·.1)).getD ""] else []))
+
+set_option linter.unusedSimpArgs false in
+/-- **C12_args_are_source**: every optional flag of the collector's command line is added under the source's condition, in the
+    source's order; the Suggestion lookup (and its error) happens exactly when there are early-stopping rules -/
+theorem C12_args_are_source (t : Trial) (e : Env) (src fil fmts fsp : Bool)
+    (hf : (!t.filters.isEmpty) = (src && fil && fmts))
+    (hff : t.kind = .file → t.fileFormat.isSome = (src && fsp)) :
+    collectorArgs t e = collectorArgsGen t e src fil fmts fsp := by
+  unfold collectorArgs collectorArgsGen argsG errNoSuggestionGuard argPathGuard argFilterGuard argFileFormatGuard
+    argStdoutFormatGuard argWaitGuard argStopRuleGuard argEarlyStopGuard
+  have h2 : (if t.filters.isEmpty = true then ([] : List String) else ["-f", ";".intercalate t.filters]) =
+      (if ((src && fil) && fmts) = true then ["-f", ";".intercalate t.filters] else []) := by
+    rw [← hf]; cases t.filters.isEmpty <;> simp
+  have h3 : (match t.kind, t.fileFormat with | .file, some f => ["-format", f] | _, _ => ([] : List String)) =
+      (if (t.kind = .file ∧ src = true) ∧ fsp = true then ["-format", t.fileFormat.getD ""] else []) := by
+    by_cases hk : t.kind = .file
+    · have h := hff hk
+      cases hfm : t.fileFormat <;> simp [hk, hfm] at h ⊢ <;> (try simp [h]) <;> (try (cases src <;> cases fsp <;> simp_all))
+    · cases hkk : t.kind <;> simp_all
+  simp only [h2]
+  cases hr : (t.rules.getD []).isEmpty <;> cases hs : e.suggestion <;> cases hw : e.waitAll <;> simp [hr, hs, hw] <;>
+    (try exact h3)
+
+/-- the two hypotheses of `C12_args_are_source` only name how the model's `filters` / `fileFormat` fold the source's nil tests:
+    for every trial there are nil-test outcomes that meet them -/
+theorem C12_args_hypotheses_satisfiable (t : Trial) :
+    ∃ src fil fmts fsp : Bool, (!t.filters.isEmpty) = (src && fil && fmts) ∧ (t.kind = .file → t.fileFormat.isSome = (src && fsp)) :=
+  ⟨true, !t.filters.isEmpty, true, t.fileFormat.isSome, by simp, by simp⟩
+
 end Katib.Gen
